@@ -192,9 +192,12 @@ def h_threshold_chain(env, M):
 h_threshold_chain.sampler = lambda rng, M: _sample_table(rng, M)
 
 
-def h_fermionic_chain(env, M):
-    """fermionic Gaussian particle-number sampler (mode-by-mode chain rule with clipping)."""
+def h_fermionic_chain(env, M, order=None):
+    """fermionic Gaussian particle-number sampler (mode-by-mode chain rule with clipping); `order` is the order in which the
+    user listed the modes - the reduced-state stub answers for the modes it is ASKED about, so a request that pairs
+    occupations with the wrong modes gets the probability of that wrong assignment."""
     marg = _marginal_table(env, M)
+    order = tuple(order) if order is not None else tuple(range(M))
 
     class Cfg:
         cache_size = 64
@@ -203,7 +206,10 @@ def h_fermionic_chain(env, M):
         def __init__(self, modes):
             self.modes = modes
         def get_particle_detection_probability(self, occ):
-            return marg(tuple(int(x) for x in occ))
+            asked = dict(zip(self.modes, (int(x) for x in occ)))
+            if set(asked) != set(order[:len(asked)]) or len(asked) != len(self.modes):
+                raise xa.HarnessError("reduced state requested on %r: not a prefix of the measured modes %r" % (self.modes, order))
+            return marg(tuple(asked[m] for m in order[:len(asked)]))
 
     class Conn:
         fallback_np = numpy
@@ -215,7 +221,7 @@ def h_fermionic_chain(env, M):
             return Red(m)
 
     class Ins:
-        modes = tuple(range(M))
+        modes = order
     env.functions.append(core.fn_ref(fgs._generate_particle_number_samples))
     env.stubs += ["rng.uniform() -> a draw u with P(u < x) = x", "reduced-state detection probability -> symbolic consistent table; float() of it is the identity"]
     g = fgs._generate_particle_number_samples.__globals__
@@ -236,7 +242,7 @@ def h_fermionic_chain(env, M):
         env.equal("law%s" % (occ,), dist.get(occ, 0), marg(occ))
 
 
-h_fermionic_chain.sampler = lambda rng, M: _sample_table(rng, M)
+h_fermionic_chain.sampler = lambda rng, M, order=None: _sample_table(rng, M)
 
 
 def _unitary2(env):
@@ -372,6 +378,7 @@ def instances(tier):
     for M in (1, 2, 3) if tier == "quick" else (1, 2, 3, 4):
         out.append(("threshold_chain", {"M": M}))
         out.append(("fermionic_chain", {"M": M}))
+    out += [("fermionic_chain", {"M": 2, "order": [1, 0]}), ("fermionic_chain", {"M": 3, "order": [2, 0, 1]})]
     for inp in [(1, 0), (1, 1), (2, 0)] + ([(2, 1), (0, 2), (3, 0)] if tier == "thorough" else []):
         out.append(("clifford_clifford", {"inp": list(inp)}))
     for k, shots in [(2, 1), (2, 2), (3, 2)] + ([(2, 3), (3, 3)] if tier == "thorough" else []):
